@@ -117,7 +117,9 @@ Definition parse_int32 (s : bytes) : option Z :=
               else int32_body false s
   end.
 
-(* parseOID *)
+(* parseOID; a component that does not fit Go's int (64 bits on the platforms this model describes) makes the
+   whole number invalid *)
+Definition max_int : Z := 9223372036854775807.
 Fixpoint parse_oid_aux (first : bool) (acc : list Z) (s : bytes) : option (list Z) :=   (* acc reversed *)
   match s with
   | [] => Some (frev acc)
@@ -131,7 +133,8 @@ Fixpoint parse_oid_aux (first : bool) (acc : list Z) (s : bytes) : option (list 
     else if (48 <=? b)%N && (b <=? 57)%N then
       let acc' := if first then [0%Z] else acc in
       match acc' with
-      | x :: t => parse_oid_aux false ((x * 10 + (Z.of_N b - 48))%Z :: t) r
+      | x :: t => if (x >? (max_int - (Z.of_N b - 48)) / 10)%Z then None
+                  else parse_oid_aux false ((x * 10 + (Z.of_N b - 48))%Z :: t) r
       | [] => None
       end
     else None
